@@ -19,12 +19,16 @@ META = {
                  "proved sound",
     "level_text": "see level text set at the end of this module",
     "level_note": "Trusted: Coq kernel + vm_compute; the trees translator; the correspondence harness (mesh generators, "
-                  "driver extraction of the neighbour slots through mouette's public connectivity queries, "
-                  "canonicalisation); mouette's mesh connectivity itself (C01/C03) is not re-verified here - the oracle "
-                  "rebuilds the adjacency from the element tables independently; UnionFind enters as the abstract "
-                  "partition it refines (C20); Python's stable list.sort, deque and set semantics; for weights='length' "
-                  "the float edge lengths are order-isomorphic to the integer squared lengths given to the model "
-                  "(lattice coordinates).",
+                  "driver extraction of the neighbour slots through mouette's public connectivity queries on a second mesh "
+                  "object, canonicalisation). NOT verified here: that those queries deliver the mesh adjacency (C01/C03): "
+                  "'tree edge is an adjacency of the mesh' is proved relative to the slots mouette reports; the oracle rebuilds "
+                  "the adjacency from the element tables, and only oriented MANIFOLD surfaces / face-connected volumes are "
+                  "generated (on a non-manifold edge opposite_face drops neighbours and neither model nor generator sees it). "
+                  "The forest theorems need a symmetric admissible adjacency: checked per forest case inside Coq (symb, proved "
+                  "sound), not proved of mouette. UnionFind enters as the abstract partition it refines (C20); Python's stable "
+                  "list.sort, deque and set semantics; for weights='length' the float edge lengths are order-isomorphic to the "
+                  "integer squared lengths given to the model (lattice coordinates). Crashes inside a shard are re-run alone, "
+                  "counted in the evidence, and fail the run beyond 2%.",
 }
 
 HEADER = """From Coq Require Import ZArith List Bool Arith.
@@ -276,8 +280,10 @@ def gen_case(rng, big=False):
         mesh = rng.choice([gen_polyline, gen_surface, gen_surface, gen_volume])(rng, big)
     case = {"mesh": mesh, "what": what}
     nv, nf, nc = len(mesh["V"]), len(mesh["F"]), len(mesh["C"])
-    # exclusion ids are drawn from a generous id range (edge / face ids are assigned by mouette); ids that do
-    # not exist are harmless members of the set
+    # exclusion ids are drawn from (a little more than) the whole id range mouette will assign: explicit + face + cell
+    # edges / faces; ids that do not exist are harmless members of the set
+    max_eid = len(mesh["E"]) + sum(len(f) for f in mesh["F"]) + sum(6 if len(c) == 4 else 12 for c in mesh["C"]) + 3
+    max_fid = nf + sum(4 if len(c) == 4 else 6 for c in mesh["C"]) + 2
     dens = rng.choice([None, 0.0, 0.1, 0.3, 0.6])
 
     def excl(maxid):
@@ -286,15 +292,15 @@ def gen_case(rng, big=False):
         return sorted(i for i in range(maxid) if rng.random() < dens)
     if what == "edge_tree":
         case.update(op="tree", kind="edge", root=rng.randrange(nv), avoid_boundary=rng.random() < 0.35,
-                    excl=excl(3 * nv + 6))
+                    excl=excl(max_eid))
     elif what == "face_tree":
-        case.update(op="tree", kind="face", root=rng.randrange(nf), excl=excl(3 * nv + 6))
+        case.update(op="tree", kind="face", root=rng.randrange(nf), excl=excl(max_eid))
     elif what == "cell_tree":
-        case.update(op="tree", kind="cell", root=rng.randrange(nc), excl=excl(4 * nc + 4))
+        case.update(op="tree", kind="cell", root=rng.randrange(nc), excl=excl(max_fid))
     elif what == "edge_forest":
         case.update(op="forest", kind="edge", excl=None)
     elif what == "face_forest":
-        case.update(op="forest", kind="face", excl=excl(3 * nv + 6))
+        case.update(op="forest", kind="face", excl=excl(max_eid))
     elif what == "cell_forest":
         case.update(op="forest", kind="cell", excl=None)
     else:
@@ -328,9 +334,13 @@ def gen_case(rng, big=False):
     elif r < (0.7 if what == "kruskal" else 0.2):
         case["pre"] = {"preset_length": [rng.choice([0.0, 1.0, 2.5, -3.0, 100.0, 7.25]) for _ in range(17)],
                        "dense": rng.random() < 0.5}
-    if case["op"] in ("tree", "kruskal") and rng.random() < 0.02:
+    # compute() / __call__ may be called again on the same object: the tables must be those of one computation
+    case["calls"] = rng.choice([1, 1, 1, 2, 2, 3])
+    if case["op"] in ("tree", "kruskal") and rng.random() < 0.06:
+        # a starting element that is not an element (too large, or negative - which Python lists would wrap around):
+        # it must be refused
         n_el = {"edge": nv, "face": nf, "cell": nc}[case["kind"]]
-        case["root"] = n_el + rng.randrange(3)   # not an element: the constructor / compute must raise
+        case["root"] = n_el + rng.randrange(3) if rng.random() < 0.4 else -1 - rng.randrange(n_el + 2)
     elif case["op"] in ("tree", "kruskal") and rng.random() < 0.03:
         case["root"] = None                      # the constructor draws the root itself
     return case
@@ -353,7 +363,7 @@ def all_roots_cases(rng, count):
         if n_el > 14:
             continue
         ab = rng.random() < 0.3
-        for r in range(n_el):
+        for r in list(range(n_el)) + [-1, -n_el, -n_el - 1]:
             if what == "kruskal":
                 out.append({"mesh": mesh, "what": "kruskal", "op": "kruskal", "kind": "edge", "root": r,
                             "avoid_boundary": ab, "weights": "length"})
@@ -408,13 +418,14 @@ def tree_term(case, res):
     cfg = "(mkCfg %s %s %s %s)" % (KIND[case["kind"]], coq_bool(case.get("excl") is not None),
                                    coq_bool(bool(case.get("avoid_boundary", False))), coq_bool(res["polyline"]))
     err = res["err"] is not None
-    return "(mkTC %s %s %d %s %s)" % (cfg, raw_term(res["raw"]), eff_root(case, res) if not err else (case["root"] or 0), coq_bool(err),
-                                      tobs_term(EMPTY_OBS if err else res))
+    root = eff_root(case, res) if not err else (case["root"] if case["root"] is not None else 0)
+    return "(mkTC %s %s %s %d %s %s)" % (cfg, raw_term(res["raw"]), zlit(root), max(1, case.get("calls", 1)), coq_bool(err),
+                                         tobs_term(EMPTY_OBS if err else res))
 
 
 def forest_term(case, res):
-    return "(mkFC %s %s %s %s %s %s %s %s)" % (
-        KIND[case["kind"]], coq_bool(res["polyline"]), raw_term(res["raw"]), nlist(res["roots"]),
+    return "(mkFC %s %s %s %d %s %s %s %s %s)" % (
+        KIND[case["kind"]], coq_bool(res["polyline"]), raw_term(res["raw"]), max(1, case.get("calls", 1)), nlist(res["roots"]),
         "[" + "; ".join(tobs_term(t) for t in res["trees"]) + "]", plist(res["edges"]), elist(res["bfs"]),
         elist(res["dfs"]))
 
@@ -433,13 +444,15 @@ def int_weight_image(case, res):
 def kruskal_term(case, res):
     sq, cust = int_weight_image(case, res)
     w = case["weights"]
+    err = res["err"] is not None
+    root = eff_root(case, res) if not err else (case["root"] if case["root"] is not None else 0)
     ki = "(mkKI %d %s %s %s %s %s %s %s %s %d)" % (
         res["n"], plist(res["edges_tab"]), "[" + "; ".join(coq_bool(b) for b in res["bord"]) + "]",
         "[" + "; ".join(zlit(x) for x in sq) + "]", "[" + "; ".join(zlit(x) for x in cust) + "]",
         coq_bool(w == "one"), coq_bool(w == "length"), coq_bool(bool(case.get("avoid_boundary", False))),
-        coq_bool(res["polyline"]), eff_root(case, res) if res["err"] is None else (case["root"] or 0))
-    err = res["err"] is not None
-    return "(mkKC %s %s %s)" % (ki, coq_bool(err), tobs_term(EMPTY_OBS if err else res))
+        coq_bool(res["polyline"]), max(0, root))
+    return "(mkKC %s %s %d %s %s)" % (ki, zlit(root), max(1, case.get("calls", 1)), coq_bool(err),
+                                      tobs_term(EMPTY_OBS if err else res))
 
 
 # ====================================================================== independent oracle (property restated)
@@ -792,8 +805,42 @@ def run_one(case, timeout=120):
     return core.run_impl(DRIVER, {"cases": [case]}, timeout=timeout)["results"][0]
 
 
+SLUGS = [("implementation crashed", "crash"), ("reading the public tables twice", "unstable-reads"),
+         ("a root that is not an element was accepted", "bad-root-accepted"), ("valid root rejected", "valid-root-rejected"),
+         ("no starting element given", "drawn-root"), ("parent/children tables have the wrong length", "table-length"),
+         ("the root has a parent", "root-has-parent"), ("reached element", "reached-without-parent"),
+         ("tree edge", "inadmissible-edge"), ("parents of", "cycle-or-dangling"), ("is at depth", "depth-not-hop-distance"),
+         ("outside the root's component", "parent-outside-component"), ("children[", "children-not-inverse"),
+         ("traverse(", "traverse"), ("tree edges for", "edge-count"), ("edge list", "edge-list"),
+         ("trees /", "tree-count"), ("forest.roots", "forest-roots"), ("two roots", "roots-same-component"),
+         ("tree rooted at", "forest-tree"), ("elements not covered", "cover"), ("forest.edges", "forest-edges"),
+         ("forest.traverse", "forest-traverse"), ("an edge is listed twice", "duplicate-edge"),
+         ("the edge list does not span", "not-spanning"), ("edges for", "not-a-forest")]
+
+
 def classify(case, msg):
-    return "%s/%s" % (case["op"], case["kind"])
+    """finding key: call site (operation, element kind), input class (exclusions / avoid_boundary / scenario / repeated
+    compute / kind of root) and mechanism (which clause of the sentence fails)"""
+    m = msg or ""
+    if m.startswith("tree rooted at") and ": " in m:
+        m = m.split(": ", 1)[1]
+    slug = next((s2 for pre, s2 in SLUGS if m.startswith(pre)), "other")
+    root = case.get("root")
+    inp = []
+    if case.get("excl"):
+        inp.append("excl")
+    if case.get("avoid_boundary"):
+        inp.append("avoid_boundary")
+    if case.get("pre"):
+        inp.append("persist-then-move" if case["pre"].get("persist_length") else "preset-length")
+    if case.get("calls", 1) > 1:
+        inp.append("recompute")
+    if case["op"] in ("tree", "kruskal"):
+        inp.append("root-none" if root is None else ("root-negative" if root < 0 else "root"))
+    if case["op"] == "kruskal":
+        w = case["weights"]
+        inp.append("w-" + (w if isinstance(w, str) else w["as"]))
+    return "%s/%s/%s/%s" % (case["op"], case["kind"], "+".join(inp) or "plain", slug)
 
 
 # ====================================================================== the check
@@ -820,7 +867,7 @@ def run(ctx):
         "weights='length': coordinates are small integers, so float lengths are ordered like the integer squared lengths "
         "given to the model (minimum spanning forests depend on the order of the weights only); custom weights are "
         "integers or multiples of 1/4 (scaled by 4 for the model)",
-        "roots that are not elements are only checked to be rejected (IndexError/KeyError); negative roots are not generated",
+        "roots that are not elements (too large or negative) must be rejected with IndexError/KeyError",
     ]
     ctx.regen(sys.modules[__name__])
     b = ctx.build_props(extra_targets=["theories/C10/Run.vo"])
@@ -858,9 +905,12 @@ def run(ctx):
         for j, o in zip(range(i, len(cases), nsh), r["results"]):
             obs[j] = o
 
-    # a crash / timeout inside a shared shard can be an artefact of machine load: re-run such cases alone, generously
+    # a crash / timeout inside a shared shard can be an artefact of machine load: such cases are re-run alone; every
+    # replaced crash is kept in the evidence and more than 2% of them fails the run
+    replaced = []
     for idx, o in enumerate(obs):
         if o is None or "crash" in o:
+            first = "no result" if o is None else o["crash"]
             for attempt in range(2):
                 try:
                     o2 = core.run_impl(DRIVER, {"cases": [cases[idx]], "case_timeout": 240}, timeout=400)["results"][0]
@@ -868,8 +918,14 @@ def run(ctx):
                     o2 = {"op": cases[idx]["op"], "kind": cases[idx]["kind"], "crash": "driver failed: %r" % ex}
                 obs[idx] = o2
                 if "crash" not in o2:
+                    replaced.append((idx, first))
                     break
             ctx.count("re-run alone after a crash/timeout in a shard")
+    for idx, first in replaced[:10]:
+        ctx.notes.append("case %d (%s) crashed inside its shard with `%s` and ran cleanly alone" % (idx, cases[idx]["what"], first[:120]))
+    ctx.obligation("harness: at most 2%% of the cases needed a re-run after a crash/timeout in their shard (%d of %d)"
+                   % (len(replaced), len(cases)), "harness", len(replaced) * 50 <= len(cases),
+                   "; ".join("%d: %s" % (i, f[:80]) for i, f in replaced[:5]))
 
     # ---- bookkeeping + oracle (search for a concrete failing input)
     fails = []
@@ -901,9 +957,12 @@ def run(ctx):
                 ctx.count("reached whole mesh" if len(o["bfs"]) == n_el else "reached a proper part")
         if c["op"] in ("tree", "kruskal") and c.get("root") is None:
             ctx.count("root drawn by the constructor")
+        if c["op"] in ("tree", "kruskal") and c.get("root") is not None and c["root"] < 0:
+            ctx.count("negative root")
+        ctx.count("compute() called %d time(s)" % c.get("calls", 1))
         ctx.case_seen([c["mesh"]["V"], c["mesh"]["E"], c["mesh"]["F"], c["mesh"]["C"], c["op"], c["kind"], c.get("root"),
                        c.get("excl"), c.get("avoid_boundary"), c.get("weights") if isinstance(c.get("weights"), str) else "custom",
-                       c.get("pre"), c["mesh"].get("pre_V"), c.get("read_order")],
+                       c.get("pre"), c["mesh"].get("pre_V"), c.get("read_order"), c.get("calls", 1)],
                       nontrivial=nontriv,
                       sample={"op": c["what"], "mesh": c["mesh"]["shape"], "root": c.get("root"),
                               "n": o.get("n"), "edges": o.get("edges", [])[:8]} if nontriv else None)
@@ -911,7 +970,7 @@ def run(ctx):
         if m:
             fails.append((idx, m))
     ctx.obligation("oracle: every tree / forest returned by the implementation satisfies the C10 sentence "
-                   "(brute-force components, hop distances, Prim minimum)", "oracle-on-implementation", True,
+                   "(brute-force components, hop distances, Prim minimum)", "oracle-on-implementation", not fails,
                    "%d failing cases" % len(fails))
 
     # ---- kernel-checked correspondence
@@ -933,19 +992,23 @@ def run(ctx):
         ctx.obligation("correspondence batches", "correspondence", False, "model does not compile")
 
     # ---- verdicts
+    for idx, msg in fails:
+        ctx.count("FAILING " + classify(cases[idx], msg))
     reported = set()
     for idx, msg in fails[:200]:
         case = cases[idx]
         key = classify(case, msg)
-        if key in reported or len(reported) >= 3:      # a few minimised witnesses are enough; the count is in the evidence
+        site = (case["op"], case["kind"])
+        if site in reported or len(reported) >= 3:      # a few minimised witnesses are enough; all failing keys are in the evidence
             continue
-        reported.add(key)
+        reported.add(site)
 
         small = shrink_case(case, msg)
         o2 = run_one(small)
         m2 = oracle(small, o2) or msg
         ctx.violation("%s on %s: %s" % (case["what"], case["mesh"]["shape"], m2),
-                      {"case": small, "observed": {k: v for k, v in o2.items() if k not in ("raw", "tb")}, "class": key}, key=key)
+                      {"case": small, "observed": {k: v for k, v in o2.items() if k not in ("raw", "tb")},
+                       "class": classify(small, m2)}, key=classify(small, m2))
     disagree = [i for v in bad.values() if v for i in v]
     if disagree and not fails:
         ctx.notes.append("model and implementation disagree on cases %s but the oracle accepts the implementation's answers" % disagree[:8])
@@ -975,11 +1038,14 @@ META["level_text"] = (
     "tests, pop sides, distance update, weight selector, candidate filter, sort direction, accept test, forest call "
     "plumbing) is regenerated from the source on every run (Gen.v) and its meaning is itself a theorem "
     "(C10_generated_decisions, C10_admissibility). FULL, for all graphs / roots / exclusion sets / integer weights: "
+    "C10_all_roots / C10_kruskal_all_roots (the starting element is a Python integer: exactly 0..n-1 accepted, "
+    "negatives refused), C10_recompute_idempotent (compute() called again leaves the tables of one computation), "
     "C10_bfs_tree (ends within its fuel; reached = reachable from the root in the admissible graph; BFS depth = hop "
     "distance, attained and minimal; parent/children mutually inverse; tree edges are admissible adjacencies one level "
     "down; |edges|+1 = |reached|), C10_bfs_acyclic, C10_traverse (both orders: each element exactly once, reported parent, "
     "parents first, fuel not hit), C10_forest (every element in exactly one tree, each tree spans the component of its "
-    "root, roots are the least elements of distinct components), C10_kruskal (edge list is a spanning forest of the "
+    "root, roots are the least elements of distinct components), C10_forest_traverse (every element exactly once), "
+    "C10_kruskal_traverse, C10_kruskal (edge list is a spanning forest of the "
     "admissible edges in every component, every edge a bridge; parent/children orient exactly the root's component; "
     "orientation fuel not hit), C10_kruskal_minimal (minimum weight among all spanning forests, ties and negative weights "
     "included), and the soundness of the Gallina checkers (is_bfs_tree, is_tree_table, is_edge_list, is_spanning_forest + "
